@@ -23,6 +23,7 @@ objects so they can be GCed
 import (
 	"fmt"
 	"os"
+	"reflect"
 	"runtime/debug"
 	"strings"
 
@@ -1027,6 +1028,26 @@ func do_LOAD_ATTR(vm *Vm, namei int32) error {
 	return vm.setTopAndCheckErr(py.GetAttrString(vm.TOP(), vm.frame.Code.Names[namei]))
 }
 
+// objectIs implements the `is` operator: identity for objects held by reference, equality for
+// immutable values held directly in the interface.  Two interface values whose dynamic type is a
+// slice or a map (py.Tuple, py.Bytes, py.StringDict, ...) cannot be compared with ==, which
+// panics for them; they are identical when they share their storage.
+func objectIs(a, b py.Object) bool {
+	ta := reflect.TypeOf(a)
+	if ta != reflect.TypeOf(b) {
+		return false
+	}
+	if ta == nil || ta.Comparable() {
+		return a == b
+	}
+	switch ta.Kind() {
+	case reflect.Slice, reflect.Map:
+		va, vb := reflect.ValueOf(a), reflect.ValueOf(b)
+		return va.Pointer() == vb.Pointer() && va.Len() == vb.Len()
+	}
+	return false
+}
+
 // Performs a Boolean operation. The operation name can be found in
 // cmp_op[opname].
 func do_COMPARE_OP(vm *Vm, opname int32) error {
@@ -1056,9 +1077,9 @@ func do_COMPARE_OP(vm *Vm, opname int32) error {
 		in, err = py.SequenceContains(b, a)
 		r = py.NewBool(!in)
 	case PyCmp_IS:
-		r = py.NewBool(a == b)
+		r = py.NewBool(objectIs(a, b))
 	case PyCmp_IS_NOT:
-		r = py.NewBool(a != b)
+		r = py.NewBool(!objectIs(a, b))
 	case PyCmp_EXC_MATCH:
 		if bTuple, ok := b.(py.Tuple); ok {
 			for _, exc := range bTuple {
